@@ -17,8 +17,10 @@ Definition mdouble (A : mat R) : mat R :=
 Inductive pcomp := PLeaf (pol : bool) (k : nat) (U : mat R) | PSub (m : nat) (items : list (nat * pcomp)).
 Definition pwidth (c : pcomp) : nat := match c with PLeaf _ k _ => k | PSub m _ => m end.
 
-(* Circuit.compute_unitary returns eye(m) (not eye(2m)) for a circuit without components, also when
-   use_polarization=True.  Nested, `nU[2 r0 : 2 (r0+m), ...] = eye(m)` is a numpy broadcast: for m = 1
+(* Names ending in _old describe /repo BEFORE the fix commits e38f1486 (empty circuit), 53c82d36 (vacuum) and
+   19d38de0 (two polarisations in one mode); the unsuffixed names are the code as it is now.
+   Before e38f1486 Circuit.compute_unitary returned eye(m) (not eye(2m)) for a circuit without components, also
+   when use_polarization=True.  Nested, `nU[2 r0 : 2 (r0+m), ...] = eye(m)` is a numpy broadcast: for m = 1
    the 2x2 block is filled with ones; for m >= 2 numpy raises. *)
 Definition ones : mat R := fun _ _ => k1.
 
@@ -33,8 +35,8 @@ Fixpoint pdouble_g (E : mat R) (c : pcomp) : comp R :=
       | _ => Sub (2 * m) (map (fun oc => match oc with (off, c') => ((2 * off)%nat, pdouble_g E c') end) items)
       end
   end.
-Definition pdouble : pcomp -> comp R := pdouble_g ones.          (* the code as it is *)
-Definition pdouble_fixed : pcomp -> comp R := pdouble_g mid.     (* with eye(2m) for an empty circuit *)
+Definition pdouble : pcomp -> comp R := pdouble_g mid.          (* the code as it is: eye(2m) for an empty circuit *)
+Definition pdouble_old : pcomp -> comp R := pdouble_g ones.     (* before e38f1486 *)
 
 Definition is_empty_sub (c : pcomp) : bool := match c with PSub _ [] => true | _ => false end.
 (* numpy "could not broadcast" : an empty sub-circuit on two or more modes somewhere below the top *)
@@ -50,15 +52,15 @@ Fixpoint pol_raises (c : pcomp) : bool :=
   end.
 
 Inductive pol_result := PolRaises | PolMat (dim : nat) (U : mat R).
-(* Circuit.compute_unitary(use_polarization=True) *)
-Definition pol_unitary (c : pcomp) : pol_result :=
+(* Circuit.compute_unitary(use_polarization=True) before e38f1486 *)
+Definition pol_unitary_old (c : pcomp) : pol_result :=
   match c with
   | PSub m [] => PolMat m mid
-  | _ => if pol_raises c then PolRaises else PolMat (2 * pwidth c) (cmat (pdouble c))
+  | _ => if pol_raises c then PolRaises else PolMat (2 * pwidth c) (cmat (pdouble_old c))
   end.
 
-(* the same with the one-line repair of Circuit.compute_unitary (eye(2m) when use_polarization) *)
-Definition pol_unitary_fixed (c : pcomp) : pol_result := PolMat (2 * pwidth c) (cmat (pdouble_fixed c)).
+(* Circuit.compute_unitary(use_polarization=True), the code as it is *)
+Definition pol_unitary (c : pcomp) : pol_result := PolMat (2 * pwidth c) (cmat (pdouble c)).
 
 (* the asserts of Circuit.add, and "no circuit without components anywhere" *)
 Fixpoint pwf (c : pcomp) : Prop :=
@@ -150,12 +152,24 @@ Definition bentry (B : block) (p q : nat) : R :=
     | 0, 0 => a | 0, _ => b | _, 0 => c | _, _ => d
     end%nat
   end.
-(* prep_state_matrix = [[eh1, eh2], [ev1, ev2]]; second column = the orthogonal complement
-   (-conj ev1, conj eh1) when the mode carries one polarisation only *)
-Definition mblock (st : mprep) : block :=
+(* before 19d38de0: prep_state_matrix = [[eh1, eh2], [ev1, ev2]]; second column = the orthogonal complement
+   (-conj ev1, conj eh1) when the mode carries one polarisation only, the second given vector otherwise *)
+Definition mblock_old (st : mprep) : block :=
   match st with
   | MP1 v1 _ => (fst v1, - kconj (snd v1), snd v1, kconj (fst v1))
   | MP2 v1 v2 _ _ => (fst v1, fst v2, snd v1, snd v2)
+  | _ => idblock
+  end.
+(* the code as it is (19d38de0): with two vectors the second column is the complement c = (-conj ev1, conj eh1)
+   of the first times phase = <c, v2>; the code also divides the phase by its modulus, which is 1 whenever the two
+   vectors are normalised and orthogonal (Proofs/PolarP.v: complement_phase), the only inputs that get here *)
+Definition mblock (st : mprep) : block :=
+  match st with
+  | MP1 v1 _ => (fst v1, - kconj (snd v1), snd v1, kconj (fst v1))
+  | MP2 v1 v2 _ _ =>
+      let ch := - kconj (snd v1) in let cv := kconj (fst v1) in
+      let ph := kconj ch * fst v2 + kconj cv * snd v2 in
+      (fst v1, ph * ch, snd v1, ph * cv)
   | _ => idblock
   end.
 Definition mcounts (st : mprep) : list nat :=
@@ -176,19 +190,20 @@ Fixpoint first_err (sts : list mprep) : option nat :=
   match sts with [] => None | st :: r => match merr st with Some c => Some c | None => first_err r end end.
 Definition spatial_input (sts : list mprep) : state := flat_map mcounts sts.
 Definition prep_matrix (sts : list mprep) : mat R := bdiag (map mblock sts).
-(* prep_matrix stays None when no mode holds a photon; `upol @ None` then raises *)
+Definition prep_matrix_old (sts : list mprep) : mat R := bdiag (map mblock_old sts).
+(* before 53c82d36 the matrix stayed None when no mode holds a photon; `upol @ None` then raised *)
 Definition no_photon (inp : pinput) : bool := forallb (fun vs => match vs with [] => true | _ => false end) inp.
 
 Inductive conv_result := ConvErr (code : nat) | ConvNoMatrix (s : state) | ConvOk (s : state) (P : mat R).
-Definition convert (inp : pinput) : conv_result :=
+Definition convert_old (inp : pinput) : conv_result :=
   let sts := prep_states inp in
   match first_err sts with
   | Some c => ConvErr c
-  | None => if no_photon inp then ConvNoMatrix (spatial_input sts) else ConvOk (spatial_input sts) (prep_matrix sts)
+  | None => if no_photon inp then ConvNoMatrix (spatial_input sts) else ConvOk (spatial_input sts) (prep_matrix_old sts)
   end.
 
-(* the same with the repair `if prep_matrix is None: prep_matrix = eye(2m)` *)
-Definition convert_fixed (inp : pinput) : conv_result :=
+(* the code as it is: identity preparation matrix for the vacuum *)
+Definition convert (inp : pinput) : conv_result :=
   let sts := prep_states inp in
   match first_err sts with
   | Some c => ConvErr c
@@ -204,11 +219,20 @@ Fixpoint merge_sub (t : state) : state :=
 Definition impl_amp (U : mat R) (m : nat) (inp : pinput) (t : state) : R :=
   let sts := prep_states inp in
   amp_num (xmul (2 * m) U (prep_matrix sts)) (2 * m) (spatial_input sts) t.
-
 (* the same for a list of outputs, sharing the matrix product (this is what is executed) *)
 Definition impl_amps (U : mat R) (m : nat) (inp : pinput) (ts : list state) : list R :=
   let sts := prep_states inp in
   let W := xmul (2 * m) U (prep_matrix sts) in
+  map (fun t => amp_num W (2 * m) (spatial_input sts) t) ts.
+(* before 19d38de0 *)
+Definition impl_amp_old (U : mat R) (m : nat) (inp : pinput) (t : state) : R :=
+  let sts := prep_states inp in
+  amp_num (xmul (2 * m) U (prep_matrix_old sts)) (2 * m) (spatial_input sts) t.
+
+(* the same for a list of outputs, sharing the matrix product (this is what is executed) *)
+Definition impl_amps_old (U : mat R) (m : nat) (inp : pinput) (ts : list state) : list R :=
+  let sts := prep_states inp in
+  let W := xmul (2 * m) U (prep_matrix_old sts) in
   map (fun t => amp_num W (2 * m) (spatial_input sts) t) ts.
 
 (* ---- specification: one column U . jones_p per photon ---- *)
@@ -235,16 +259,16 @@ Definition spec_norm_in (inp : pinput) : nat := fold_right (fun vs acc => (mult_
 
 End Polar.
 
-Arguments mdouble {_}. Arguments PLeaf {_}. Arguments PSub {_}. Arguments pwidth {_}. Arguments pdouble {_}. Arguments pdouble_g {_}. Arguments pdouble_fixed {_}. Arguments pol_unitary_fixed {_}. Arguments convert_fixed {_}.
-Arguments pol_raises {_}. Arguments pol_unitary {_}. Arguments PolRaises {_}. Arguments PolMat {_}.
+Arguments mdouble {_}. Arguments PLeaf {_}. Arguments PSub {_}. Arguments pwidth {_}. Arguments pdouble_old {_}. Arguments pdouble_g {_}. Arguments pdouble {_}. Arguments pol_unitary {_}. Arguments convert {_}.
+Arguments pol_raises {_}. Arguments pol_unitary_old {_}. Arguments PolRaises {_}. Arguments PolMat {_}.
 Arguments pwf {_}. Arguments pwfb {_}. Arguments no_empty {_}. Arguments pflatten {_}. Arguments dleaf {_}.
 Arguments ones {_}. Arguments is_empty_sub {_}.
 Arguments jones_label {_}. Arguments jones_standard {_}. Arguments jones_quarter {_}. Arguments cos_q {_}.
 Arguments sin_q {_}. Arguments ipow {_}.
-Arguments veqb {_}. Arguments inner {_}. Arguments mstep {_}. Arguments mode_prep {_}. Arguments mblock {_}.
+Arguments veqb {_}. Arguments inner {_}. Arguments mstep {_}. Arguments mode_prep {_}. Arguments mblock {_}. Arguments mblock_old {_}. Arguments prep_matrix {_}. Arguments impl_amp {_}. Arguments impl_amps {_}.
 Arguments mcounts {_}. Arguments merr {_}. Arguments bdiag {_}. Arguments bentry {_}. Arguments idblock {_}.
-Arguments prep_states {_}. Arguments first_err {_}. Arguments spatial_input {_}. Arguments prep_matrix {_}.
-Arguments no_photon {_}. Arguments convert {_}. Arguments ConvErr {_}. Arguments ConvNoMatrix {_}. Arguments ConvOk {_}.
-Arguments impl_amp {_}. Arguments impl_amps {_}. Arguments permC {_}. Arguments jcol {_}. Arguments spec_cols {_}. Arguments spec_amp {_}.
+Arguments prep_states {_}. Arguments first_err {_}. Arguments spatial_input {_}. Arguments prep_matrix_old {_}.
+Arguments no_photon {_}. Arguments convert_old {_}. Arguments ConvErr {_}. Arguments ConvNoMatrix {_}. Arguments ConvOk {_}.
+Arguments impl_amp_old {_}. Arguments impl_amps_old {_}. Arguments permC {_}. Arguments jcol {_}. Arguments spec_cols {_}. Arguments spec_amp {_}.
 Arguments MP0 {_}. Arguments MP1 {_}. Arguments MP2 {_}. Arguments MErr {_}.
 Arguments occ {_}. Arguments mult_fact {_}. Arguments spec_norm_in {_}.
